@@ -119,7 +119,92 @@ func New(id string) *Run {
 	}
 	r.dead = r.start.Add(budget)
 	r.loadFindings()
+	go r.memGuard()
 	return r
+}
+
+// inflight holds the inputs that workers have handed to the code under test
+// and not got back yet (optional; checks whose inputs can make a broken decoder
+// run away record them so that the memory guard can name them).
+var (
+	inflightMu sync.Mutex
+	inflight   = map[int]interface{}{}
+	inflightN  int
+)
+
+// SetInFlight records what worker slot is about to hand to the code under test.
+func SetInFlight(slot int, v interface{}) {
+	inflightMu.Lock()
+	inflight[-1-slot] = v
+	inflightMu.Unlock()
+}
+
+// EnterInFlight records that a worker is about to hand an input to the code
+// under test (describe is only called if the memory guard fires); the token
+// goes to LeaveInFlight when the call has returned.
+func EnterInFlight(describe func() string) int {
+	inflightMu.Lock()
+	inflightN++
+	tok := inflightN
+	inflight[tok] = describe
+	inflightMu.Unlock()
+	return tok
+}
+
+// LeaveInFlight frees the slot of EnterInFlight.
+func LeaveInFlight(tok int) {
+	inflightMu.Lock()
+	delete(inflight, tok)
+	inflightMu.Unlock()
+}
+
+// memGuard turns a runaway allocation of the code under test (a decode loop
+// that never terminates, a length read from the wrong bytes) into a verdict
+// before the machine's out-of-memory killer ends the process without one. The
+// limit (VERIF_MEM_LIMIT_GB, default 16 GiB of live heap) is far above what any
+// check needs on a tree where the property holds (measured peaks: DESIGN 13.2b).
+func (r *Run) memGuard() {
+	limit := uint64(16) << 30
+	if s := os.Getenv("VERIF_MEM_LIMIT_GB"); s != "" {
+		if v, err := strconv.Atoi(s); err == nil && v > 0 {
+			limit = uint64(v) << 30
+		}
+	}
+	var ms runtime.MemStats
+	for {
+		time.Sleep(200 * time.Millisecond)
+		runtime.ReadMemStats(&ms)
+		if ms.HeapAlloc <= limit {
+			continue
+		}
+		var fl []interface{}
+		desc := ""
+		inflightMu.Lock()
+		for i, v := range inflight {
+			if f, isf := v.(func() string); isf {
+				v = f()
+			}
+			fl = append(fl, v)
+			if len(desc) < 600 {
+				desc += fmt.Sprintf(" [%d] %+v;", i, v)
+			}
+		}
+		inflightMu.Unlock()
+		if len(desc) > 900 {
+			desc = desc[:900] + "..."
+		}
+		if desc == "" {
+			desc = " (the check does not record its inputs in flight)"
+		}
+		r.mu.Lock()
+		r.pending = nil // their re-executions would only feed the runaway
+		r.alternates = map[string][]Violation{}
+		r.mu.Unlock()
+		r.Report(Violation{Key: "runaway-memory", Kind: "inflight", Replay: fl,
+			What: fmt.Sprintf("the live heap grew beyond %d GiB while the code under test worked on small inputs (runaway allocation / non-terminating decode); inputs in flight:%s", limit>>30, desc)})
+		r.SetExhaustive(false)
+		r.Finish()
+	}
 }
 
 func (r *Run) loadFindings() {
@@ -160,10 +245,10 @@ func (r *Run) Expired() bool { return time.Now().After(r.dead) }
 // Remaining returns the time left in the budget.
 func (r *Run) Remaining() time.Duration { return time.Until(r.dead) }
 
-func (r *Run) Eval(n int64)       { r.evaluations.Add(n) }
-func (r *Run) States(n int64)     { r.states.Add(n) }
+func (r *Run) Eval(n int64)        { r.evaluations.Add(n) }
+func (r *Run) States(n int64)      { r.states.Add(n) }
 func (r *Run) Transitions(n int64) { r.transitions.Add(n) }
-func (r *Run) Validated(n int64)  { r.validated.Add(n) }
+func (r *Run) Validated(n int64)   { r.validated.Add(n) }
 
 // DistinctN adds n cases that are distinct and non-trivial by construction
 // (an enumeration that never repeats an input).
